@@ -45,9 +45,9 @@ class EndpointReferenceType(XMLTypeBase):
 class RelatesTo(ElementWithText):
     """Contributes one abstract [relationship] property value."""
 
-    RelationshipType: str | None = struct.AnyUriTextElement(
-        nsh.WSA.tag('RelationshipType'),
-        is_optional=True,
+    # wsa:RelatesTo is an xs:anyURI with the ATTRIBUTE RelationshipType
+    RelationshipType: str | None = struct.AnyURIAttributeProperty(
+        'RelationshipType',
         implied_py_value='http://www.w3.org/2005/08/addressing/reply')
     _props = ('RelationshipType',)
 
